@@ -472,11 +472,48 @@ def short_mark(c):
     return head + ' |' + rest
 
 
+AIM_DELAYS = [0, 1, 2, 3, 100, 187, 200, 250, 251, 363, 407, 1000, 2500, 10000, 60000]
+
+
+def clock_aimed(cases, limit=120):
+    """32-bit scheduler build: copies of a sample of the cases with the clock origin moved so that one of their operations happens d ms before
+    the clock reads 0xffffffff, for the delays d the library arms (claim answer 2 ms, open delay 200 ms, claim window 250 ms, pending
+    information 187+8*src / 187+10*src ms, retries, heartbeat ...): a deadline computed to exactly 0xffffffff - the 'disabled' marker of
+    the 32-bit scheduler - must still fire (seeds C03-18, C09-16).  Deterministic (hash of the case)."""
+    out = []
+    sample = [c for c in cases if c.startswith('NODE ') and '|' in c and ' t0=' in c.split('|')[0]]
+    step = max(1, len(sample) // limit)
+    for c in sample[::step]:
+        head, rest = c.split('|', 1)
+        ops = [o.strip() for o in rest.split(';')]
+        h = zlib.crc32(c.encode())
+        marks = [k for k, o in enumerate(ops) if o and o[0] in 'PRSQCX']
+        if not marks:
+            continue
+        k = marks[h % len(marks)]
+        el = 0
+        for o in ops[:k]:
+            if o.startswith('T '):
+                try:
+                    el += int(o.split()[1])
+                except ValueError:
+                    pass
+        m = re.search(r' src=(\d+)', head)
+        src = int(m.group(1)) if m else 0
+        ds = AIM_DELAYS + [187 + 8 * src, 187 + 10 * src]
+        d = ds[(h >> 8) % len(ds)]
+        t0 = (0xffffffff - d - el) % (1 << 32)
+        out.append(re.sub(r' t0=\d+', ' t0=%d' % t0, head, count=1) + '|' + rest)
+    return out
+
+
 def correspond(run, family, harness, flagset, model_fam, cases, oracle, nontrivial=None, canon=canon_impl, known=None, model_args=(), impl_only=False):
     """Run [cases] through the extracted model and through the C++ harness, diff, and apply the property oracle to
     what the implementation did.  oracle(case, impl_result) -> None | 'description of the failure'.
     known(case, what) -> key string of a listed known finding or None."""
     if harness == 'h_node':
+        if flagset == 'w32' and not os.environ.get('VERIF_REPLAYING'):
+            cases = list(cases) + clock_aimed(cases)
         cases = [short_mark(c) for c in cases]
     hexe, err = build_harness(harness, flagset)
     if hexe is None:
